@@ -51,16 +51,17 @@ def body_roundtrip(rep, case, sub="roundtrip"):
     tools = _tools()
     zname = case["zone"]
     y, mo, d = case["date"]
-    h, mi, s = case["now"]
+    h, mi, s = case["now"][:3]
+    micro = case["now"][3] if len(case["now"]) > 3 else 0     # the sub-second part of "now" must not leak into the result
     date = dt.date(y, mo, d)
     near = case.get("near_transition", False)
     nt = zname != "UTC" or near
-    with vclock.frozen(zname, y, mo, d, h, mi, s) as dest:
+    with vclock.frozen(zname, y, mo, d, h, mi, s, micro=micro) as dest:
         # the frozen instant must really be on that local date (a 'now' inside a gap moves forward, still same date)
         local_today = dest.astimezone(vclock.zone(zname)).date()
         for m in minute_set(case["minutes"]):
             cands = vclock.candidates(zname, local_today, m // 60, m % 60)
-            one = {"zone": zname, "date": [y, mo, d], "now": [h, mi, s], "minutes": [m]}
+            one = {"zone": zname, "date": [y, mo, d], "now": [h, mi, s, micro], "minutes": [m]}
             if not cands:
                 rep.label("nonexistent-skipped")
                 continue
@@ -112,7 +113,7 @@ def body_malformed(rep, case):
 
 # -- case generation --------------------------------------------------------------------
 
-NOWS = [[0, 0, 30], [12, 0, 0], [23, 59, 30]]
+NOWS = [[0, 0, 30], [12, 0, 0, 600_000], [23, 59, 30, 999_999]]
 
 
 def special_dates():
@@ -179,7 +180,18 @@ def strat_malformed():
     emptypart = st.one_of(st.integers(0, 59).map(lambda n: f":{n:02d}"), st.integers(0, 23).map(lambda n: f"{n:02d}:"),
                           st.just(":"))
     negative = st.one_of(st.integers(0, 59).map(lambda n: f"-1:{n:02d}"), st.integers(0, 23).map(lambda n: f"{n:02d}:-5"))
-    return st.tuples(st.one_of(bad_hour, bad_min, alpha, nocolon, emptypart, negative),
+    hm = st.tuples(st.integers(0, 23), st.integers(0, 59))
+    # strings int() would swallow but that are not HH:MM: digit separators, signs, inner/trailing blanks, a third digit,
+    # non-ASCII digits, a trailing line end (a leading blank is tolerated by the code today and left unspecified)
+    arabic = str.maketrans("0123456789", "٠١٢٣٤٥٦٧٨٩")
+    sneaky = st.one_of(
+        hm.map(lambda t: f"{t[0] // 10}_{t[0] % 10}:{t[1]:02d}"), hm.map(lambda t: f"{t[0]:02d}:{t[1] // 10}_{t[1] % 10}"),
+        hm.map(lambda t: f"+{t[0]:02d}:{t[1]:02d}"), hm.map(lambda t: f"{t[0]:02d}:+{t[1]:02d}"), hm.map(lambda t: f"-0:{t[1]:02d}"),
+        hm.map(lambda t: f"{t[0]:02d} :{t[1]:02d}"), hm.map(lambda t: f"{t[0]:02d}: {t[1]:02d}"), hm.map(lambda t: f"{t[0]:02d}:{t[1]:02d} "),
+        hm.map(lambda t: f"0{t[0]:02d}:{t[1]:02d}"), hm.map(lambda t: f"{t[0]:02d}:0{t[1]:02d}"),
+        hm.map(lambda t: f"{t[0]:02d}:{t[1]:02d}".translate(arabic)), hm.map(lambda t: f"{t[0]:02d}:{t[1]:02d}\n"),
+        hm.map(lambda t: f"0x{t[0]:x}:{t[1]:02d}"), hm.map(lambda t: f"{t[0]:02d}:{t[1]:02d}.5"))
+    return st.tuples(st.one_of(bad_hour, bad_min, alpha, nocolon, emptypart, negative, sneaky),
                      st.sampled_from(vclock.QUICK_ZONES)).map(lambda t: {"text": t[0], "zone": t[1]})
 
 
